@@ -737,19 +737,35 @@ def run_instance_case(case_seed: int) -> list[dict]:
             s.vis_shown = True
             s.visgroup_ids.clear()
             tmpl.add_brush(s)
+        with_proxy = r.random() < 0.5
+        if with_proxy:
+            # instance inputs / outputs: an io_proxy relaying `instance:door;Open`, and a named entity firing ProxyRelay
+            proxy = tmpl.create_ent('func_instance_io_proxy', targetname='proxy', origin='0 0 0')
+            proxy.add_out(Output('OnProxyRelay', 'door', 'Open', r.choice(['', 'p1']), r.choice([0.0, 0.5])))
+            relay = tmpl.create_ent('logic_relay', targetname='relay', origin='8 8 8')
+            relay.add_out(Output('OnTrigger', 'proxy', 'ProxyRelay', '', 0.0))
+            relay.add_out(Output('OnSpawn', 'door', 'Close', '', 1.0))
         ifile = instancing.InstanceFile(tmpl)
         target = VMF()
 
         def dump(v):
             buf = io.StringIO()
             v.export(buf, inc_version=False)
-            return U._sort_runs(buf.getvalue())
+            text = U._sort_runs(buf.getvalue())
+            if v is tmpl:       # the parsed instance file also owns the proxy Output objects (removed from the map)
+                text += ''.join(sorted(f'proxy_input {k}: {o.as_keyvalue()}' for k, o in ifile.proxy_inputs.items()))
+                text += ''.join(sorted(f'proxy_output {k}: {o[1].as_keyvalue()}' for k, o in ifile.proxy_outputs.items()))
+            return text
         before = dump(tmpl)
         snaps = []
         for k in range(2):
             ient = target.create_ent('func_instance', targetname=f'inst{k}', origin=f'{64 * k} 0 0', angles='0 90 0',
                                      file='x.vmf', fixup_style=str(r.choice([0, 1, 2])))
             ient.fixup['$outer'] = 'val'
+            if with_proxy:
+                ient.add_out(Output('OnTrigger', 'outside', 'Kill', '', 0.0, inst_out='relay'))
+                trig = target.create_ent('trigger_once', targetname=f'trig{k}')
+                trig.add_out(Output('OnStartTouch', f'inst{k}', 'Open', '', 0.0, inst_in='door'))
             inst = instancing.Instance.from_entity(ient)
             snap_ient = U.observe(ient)
             try:
@@ -770,6 +786,25 @@ def run_instance_case(case_seed: int) -> list[dict]:
                                  'detail': [where, la, lb]})
                 break
             snaps.append(dump(target))
+        # independence afterwards: in-place edits of what was collapsed into the target must not show in the template
+        if not problems:
+            pool = [o for o in list(target.entities) + list(target.brushes)]
+            for _step in range(6):
+                if not pool:
+                    break
+                victim = r.choice(pool)
+                try:
+                    desc = U.api_mutation(r, victim) if r.random() < 0.5 else U.generic_mutation(r, victim)
+                except Exception as e:
+                    problems.append({'key': f'instance-target-mutation-raised:{type(e).__name__}', 'what': f'{type(e).__name__}: {e}', 'detail': []})
+                    break
+                now = dump(tmpl)
+                if now != before:
+                    where, la, lb = U.first_diff(before, now)
+                    problems.append({'key': f'instance-target-edit-visible-in-template:{where_key(where)}',
+                                     'what': f'after collapse_one, editing the target map ({desc}) changed the instance template at '
+                                             f'{where}: {la!r} -> {lb!r}', 'detail': [desc, where, la, lb]})
+                    break
     return problems
 
 
